@@ -41,6 +41,20 @@ type c13Case struct {
 	Prior string `json:"prior,omitempty"`
 	// MultiLine: every negative status (and the return value) has several lines
 	MultiLine bool `json:"multi_line,omitempty"`
+	// Interludes (optional, len(Rcpts)+1 entries): a command that changes
+	// nothing, sent before the i-th RCPT (the last entry: after the last
+	// one): 0 none, 1 NOOP, 2 VRFY, 3 a malformed RCPT, 4 a BDAT whose second
+	// argument is not LAST (refused, its octets discarded), 5 a BDAT with an
+	// unreadable size, 6 DATA with an argument
+	Interludes []int `json:"interludes,omitempty"`
+}
+
+var c13InterludeCmds = []struct {
+	raw string
+	exp expect
+}{
+	{}, {"NOOP\r\n", expect{Code: 250}}, {"VRFY someone\r\n", expect{Class: 2}}, {"RCPT TO:<nobody\r\n", expect{Class: 5}},
+	{"BDAT 4 LATS\r\nabcd", expect{Class: 5}}, {"BDAT x LAST\r\n", expect{Class: 5}}, {"DATA now\r\n", expect{Class: 5}},
 }
 
 func c13Accepted(c c13Case) []string {
@@ -197,13 +211,21 @@ func c13Run(c c13Case) Verdict {
 		}
 	}
 	pre.cmd("MAIL FROM:<s@x>", expect{Code: 250})
-	for _, rc := range c.Rcpts {
+	interlude := func(i int) {
+		if i < len(c.Interludes) && c.Interludes[i] > 0 && c.Interludes[i] < len(c13InterludeCmds) {
+			ic := c13InterludeCmds[c.Interludes[i]]
+			pre.raw([]byte(ic.raw), ic.exp)
+		}
+	}
+	for i, rc := range c.Rcpts {
+		interlude(i)
 		if rc.Reject {
 			pre.cmd("RCPT TO:<"+rc.Addr+">", expect{Code: 550})
 		} else {
 			pre.cmd("RCPT TO:<"+rc.Addr+">", expect{Code: 250})
 		}
 	}
+	interlude(len(c.Rcpts))
 	out, st := w.Exchange(pre.buf)
 	prs, err := harness.ParseReplies(out)
 	if st != harness.QIdle || err != nil || matchReplies(prs, pre.exp) != "" {
@@ -413,6 +435,15 @@ func c13Gen(t *rapid.T) c13Case {
 		k := rapid.IntRange(0, len(acc)).Draw(t, "k")
 		for _, occ := range perm[:k] {
 			c.Status = append(c.Status, c13Status{Occ: occ, OK: rapid.Bool().Draw(t, "ok"), AfterRead: rapid.Bool().Draw(t, "after")})
+		}
+	}
+	if rapid.IntRange(0, 2).Draw(t, "interludes") == 0 {
+		for i := 0; i <= len(c.Rcpts); i++ {
+			k := 0
+			if rapid.Bool().Draw(t, "interlude_here") {
+				k = rapid.IntRange(1, len(c13InterludeCmds)-1).Draw(t, "interlude")
+			}
+			c.Interludes = append(c.Interludes, k)
 		}
 	}
 	c.RetErr = rapid.Bool().Draw(t, "reterr")
